@@ -3,6 +3,7 @@
 -/
 import YarlModel
 import YarlProofs.Lemmas.NetlocLemmas
+import YarlProofs.C16
 namespace Yarl
 open NetlocLemmas
 
@@ -136,8 +137,9 @@ theorem unbracket_bracket (h : Str) (hh : HostOK h) : unbracket (bracket h) = h 
 /-- `with_host(hs)`: for an encoded host `eh = _encode_host(hs)` that is a well-formed host
     (`bracket (unbracket eh) = eh` and `HostOK (unbracket eh)`), the host reads back as
     `unbracket eh`; user, password, port and the other four parts are unchanged.
-    The well-formedness hypotheses are NOT implied by `encodeHost … = .ok eh`:
-    see `C11_with_host_zone_injection`. -/
+    Before the zone-id fix the well-formedness hypotheses were NOT implied by `encodeHost … = .ok eh`
+    (`1.2.3.4%@evil.com:80` was accepted); now that argument is rejected (`C11_with_host_zone_rejected`)
+    and they follow from `eh ≠ []`: see `C11_encoded_host_wellformed`, `C11_with_host_validated`. -/
 theorem C11_with_host (e : Env) (qf : Str → Str) (user pw : Option Str) (h : Str) (port : Option Nat)
     (scheme path query fragment : Str) (hs eh : Str)
     (hu : UserOK user) (hh : HostOK h) (hp : ∀ p, port = some p → p ≤ 65535)
@@ -452,24 +454,129 @@ theorem C11_origin_frame (e : Env) (u : Url) :
       · cases h1
         exact ⟨rfl, rfl, rfl, rfl⟩
 
-/-- FINDING: `_encode_host` does not validate the zone of an IP literal (`"%zone"`), so
-    `with_host` can inject userinfo / host / port: the new host is NOT the argument. -/
-theorem C11_with_host_zone_injection :
+/-- FIXED FINDING: `_encode_host` used not to validate the zone of an IP literal (`"%zone"`), so `with_host`
+    could inject userinfo / host / port.  With the zone id validated the hostile argument is rejected. -/
+theorem C11_with_host_zone_rejected :
     let e : Env := { b := .py, o := Oracles.empty }
     let u := fromParts "http".toStr (makeNetloc id none none (some (bracket "a.com".toStr)) none false)
               "/p".toStr [] []
     u.netloc = "a.com".toStr ∧
-    encodeHost e.o "1.2.3.4%@evil.com:80".toStr true = .ok "1.2.3.4%@evil.com:80".toStr ∧
-    ∃ v, withHost e u "1.2.3.4%@evil.com:80".toStr = .ok v ∧
-      v.netloc = "1.2.3.4%@evil.com:80".toStr ∧
-      rawHost e v = .ok (some "evil.com".toStr) ∧ rawUser e v = .ok (some "1.2.3.4%".toStr) ∧
-      explicitPort e v = .ok (some 80) := by
-  refine ⟨by decide, by rfl,
-    fromParts "http".toStr "1.2.3.4%@evil.com:80".toStr "/p".toStr [] [], ?_, rfl, ?_, ?_, ?_⟩
-  · rfl
-  · rfl
-  · rfl
-  · rfl
+    encodeHost e.o "1.2.3.4%@evil.com:80".toStr true = .error .valueError ∧
+    withHost e u "1.2.3.4%@evil.com:80".toStr = .error .valueError := by
+  refine ⟨by decide, by rfl, by rfl⟩
+
+/-- since the zone-id fix, every non-empty accepted `host=` argument is encoded to a well-formed host:
+    the side conditions of `C11_with_host` hold automatically -/
+theorem C11_encoded_host_wellformed (o : Oracles) (hs eh : Str) (hne : eh ≠ []) :
+    encodeHost o hs true = .ok eh → bracket (unbracket eh) = eh ∧ HostOK (unbracket eh) := by
+  intro he
+  rcases HostLemmas.validated_cases he with ⟨hip, hz⟩ | ⟨hn, _⟩
+  · have hzone : ∀ c, (partition 37 hs).2.1 = true ∧ c ∈ (partition 37 hs).2.2 → c ≠ 64 ∧ c ≠ 58 ∧ c ≠ 91 ∧ c ≠ 93 := by
+      intro c ⟨hsep, hc⟩
+      have := HostLemmas.zone_chars (HostLemmas.zoneBad_true_false hz hsep) c hc
+      omega
+    unfold HostLemmas.ipRes at hip
+    cases h4 : parseIPv4 (partition 37 hs).1 with
+    | some o4 =>
+      simp only [parseIP, h4, Option.some.injEq] at hip
+      rw [(C16_ipv4_canonical _ o4 h4).1] at hip
+      have hd := HostLemmas.parseIPv4_chars h4
+      have hno : ∀ k, (k = 64 ∨ k = 58 ∨ k = 91 ∨ k = 93) → k ∉ eh := by
+        intro k hk hkr
+        rw [← hip] at hkr
+        have hpre : k ∉ (partition 37 hs).1 := by
+          intro hm
+          rcases hd k hm with h | h
+          · omega
+          · simp [isDigitC] at h; omega
+        split at hkr
+        · rename_i hsep
+          simp only [List.mem_append, List.mem_cons, List.not_mem_nil, or_false] at hkr
+          rcases hkr with (hm | h) | hm
+          · exact hpre hm
+          · omega
+          · have := hzone k ⟨hsep, hm⟩; omega
+        · exact hpre hkr
+      have h91 : mem 91 eh = false := mem_false_iff.mpr (hno 91 (by simp))
+      have h58 : mem 58 eh = false := mem_false_iff.mpr (hno 58 (by simp))
+      have hu : unbracket eh = eh := by simp [unbracket, h91]
+      rw [hu]
+      exact ⟨by simp [bracket, h58], hne, hno 64 (by simp), hno 91 (by simp), hno 93 (by simp)⟩
+    | none =>
+      cases h6 : parseIPv6 (partition 37 hs).1 with
+      | none => simp [parseIP, h4, h6] at hip
+      | some h8 =>
+        simp only [parseIP, h4, h6, Option.map_some, Option.some.injEq] at hip
+        have hcolon : 58 ∈ ipv6ToStr h8 :=
+          HostLemmas.parseIPv6_colon (C16_ipv6_reparse _ h8 h6)
+        have htxt : ∀ k, (k = 64 ∨ k = 91 ∨ k = 93) → k ∉ ipv6ToStr h8 := by
+          intro k hk hm
+          rcases C16_ipv6_text_lower h8 k hm with h | h | h
+          · omega
+          · simp [isDigitC] at h; omega
+          · omega
+        obtain ⟨body, hbody, h58, hok⟩ : ∃ body, eh = [91] ++ body ++ [93] ∧ 58 ∈ body ∧
+            (64 ∉ body ∧ 91 ∉ body ∧ 93 ∉ body) := by
+          split at hip
+          · rename_i hsep
+            refine ⟨ipv6ToStr h8 ++ [37] ++ (partition 37 hs).2.2, by rw [← hip]; simp, by simp [hcolon], ?_⟩
+            have hz' := fun k hm => hzone k ⟨hsep, hm⟩
+            refine ⟨?_, ?_, ?_⟩ <;>
+              (intro hm
+               simp only [List.mem_append, List.mem_cons, List.not_mem_nil, or_false] at hm
+               rcases hm with (hm | hm) | hm
+               · exact htxt _ (by simp) hm
+               · omega
+               · have := hz' _ hm; omega)
+          · exact ⟨ipv6ToStr h8, by rw [← hip], hcolon, htxt 64 (by simp), htxt 91 (by simp), htxt 93 (by simp)⟩
+        have hu : unbracket eh = body := by
+          have : mem 91 eh = true := mem_iff.mpr (by rw [hbody]; simp)
+          unfold unbracket
+          rw [if_pos this, hbody]
+          simp
+        rw [hu]
+        refine ⟨?_, ?_, hok⟩
+        · have : mem 58 body = true := mem_iff.mpr h58
+          simp [bracket, this, hbody]
+        · intro e; rw [e] at h58; cases h58
+  · have hs := HostLemmas.notRegName_spec eh hn
+    have hno : ∀ k, k ≠ 37 → mem k Gen.regNameChars = false → k ∉ eh := by
+      intro k h1 h2 hk
+      rcases hs k hk with h | h
+      · exact h1 h
+      · rw [h2] at h; cases h
+    have h91 : mem 91 eh = false := mem_false_iff.mpr (hno 91 (by decide) (by decide))
+    have h58 : mem 58 eh = false := mem_false_iff.mpr (hno 58 (by decide) (by decide))
+    have hu : unbracket eh = eh := by simp [unbracket, h91]
+    rw [hu]
+    exact ⟨by simp [bracket, h58], hne, hno 64 (by decide) (by decide), hno 91 (by decide) (by decide),
+      hno 93 (by decide) (by decide)⟩
+
+/-- `with_host(hs)` without side conditions on the encoded host: whenever the argument is accepted
+    (and encodes to a non-empty string) the new host reads back as `unbracket eh` and nothing else changes -/
+theorem C11_with_host_validated (e : Env) (qf : Str → Str) (user pw : Option Str) (h : Str) (port : Option Nat)
+    (scheme path query fragment : Str) (hs eh : Str)
+    (hu : UserOK user) (hh : HostOK h) (hp : ∀ p, port = some p → p ≤ 65535)
+    (hs_ne : hs ≠ []) (henc : encodeHost e.o hs true = .ok eh) (heh : eh ≠ []) :
+    let u := fromParts scheme (makeNetloc qf user pw (some (bracket h)) port false) path query fragment
+    ∃ v, withHost e u hs = .ok v ∧ rawHost e v = .ok (some (unbracket eh)) ∧
+         rawUser e v = .ok user ∧ rawPassword e v = .ok pw ∧ explicitPort e v = .ok port ∧
+         v.scheme = u.scheme ∧ v.path = u.path ∧ v.query = u.query ∧ v.fragment = u.fragment := by
+  obtain ⟨hwf, hh2⟩ := C11_encoded_host_wellformed e.o hs eh heh henc
+  exact C11_with_host e qf user pw h port scheme path query fragment hs eh hu hh hp hs_ne henc hwf hh2
+
+/-- without validation (`encoded=True` paths) the zone is still copied verbatim -/
+example : encodeHost Oracles.empty "1.2.3.4%@evil.com:80".toStr false = .ok "1.2.3.4%@evil.com:80".toStr := by rfl
+
+example : encodeHost Oracles.empty "fe80::1%eth0".toStr true = .ok "[fe80::1%eth0]".toStr ∧
+    unbracket "[fe80::1%eth0]".toStr = "fe80::1%eth0".toStr ∧ "[fe80::1%eth0]".toStr ≠ [] := ⟨by rfl, by decide, by decide⟩
+
+/-- a well-formed zone is still accepted by `with_host` -/
+example :
+    let e : Env := { b := .py, o := Oracles.empty }
+    let u := fromParts "http".toStr (makeNetloc id none none (some (bracket "a.com".toStr)) none false)
+              "/p".toStr [] []
+    (withHost e u "fe80::1%eth0".toStr).map (·.netloc) = .ok "[fe80::1%eth0]".toStr := by rfl
 
 /-! ### non-vacuity checks -/
 
